@@ -147,7 +147,13 @@ def c13_cases(tier, rng):
     add([st(n, rs(), rs()), st(n, rs(), rs())], pool=3, delay="cut")
     for _ in range(4 if tier == "quick" else 120):
         k = rng.randint(1, 4)
-        add([st(rng.choice([50, n]), rs(), rs(), rng.choice(["pid", "name"]), comp=rng.choice(["", "", "gzip", "lzw"]), big=rng.choice([0, 0, 4000, 60000])) for _ in range(k)], pool=rng.choice([1, 2, 3, 4, 6]), delay=rng.choice(["", "link0", "rotate", "rotate"]), chunk=rng.choice([0, 0, 0, 11, 500]))
+        sts = []
+        for _ in range(k):
+            big = rng.choice([0, 0, 4000, 60000])
+            sts.append(st(rng.choice([50, n]) if big == 0 else rng.choice([30, 120]), rs(), rs(), rng.choice(["pid", "name"]), comp=rng.choice(["", "", "gzip", "lzw"]), big=big))
+        # tiny segments only for small volumes (the relay writes segment by segment)
+        chunk = rng.choice([0, 0, 0, 11, 500]) if all(x["big"] == 0 for x in sts) else rng.choice([0, 0, 1460])
+        add(sts, pool=rng.choice([1, 2, 3, 4, 6]), delay=rng.choice(["", "link0", "rotate", "rotate"]), chunk=chunk)
     return cases
 
 
